@@ -194,14 +194,25 @@ class DebugInfo:
                                 end_offset)
             else:
                 # there should have been an empty block marker inside.
+                found_marker = False
                 for addr in self.empty_blocks:
                     if start_offset <= addr < end_offset:
+                        found_marker = True
                         add_node_record(block.start_stmt,
                                         start_offset,
                                         addr)
                         add_node_record(block.end_stmt,
                                         addr,
                                         end_offset)
+
+                if not found_marker and end_offset > start_offset:
+                    # No marker either: a SELECT without any CASE, or a
+                    # block whose body the optimizer removed entirely.
+                    # Attribute all of its code to the start statement
+                    # rather than to no statement at all.
+                    add_node_record(block.start_stmt,
+                                    start_offset,
+                                    end_offset)
 
         self.stmts.sort(key=lambda r: r.start_offset)
 
